@@ -214,6 +214,41 @@ def rule_normaliser_frames(ctx, rid):
            f"different time lines (or the comparison raises)")
 
 
+def rule_store_time_frames(ctx, rid):
+    m = ctx.model
+    # ---------------------------------------------------------------- Z3
+    n_ctor = 0
+    fs_mod = [mod for mod in m.modules.values() if mod.name == "uberjob.stores._file_store"]
+    helpers = [f for f in m.find_funcs("get_modified_time") if f.cls is None and f.module.name.startswith("uberjob.stores")]
+    for f in helpers:
+        n_ctor += 1
+        interp = Interp(m, ext=DT_EXT)
+        try:
+            out = interp.call_func(f, None, ["/some/path"], {})
+        except AbsRaise as e:
+            raise AnalysisError(f"C18.Z3: evaluating {f.qualname} raised {e.value!r}")
+        if isinstance(out, ADT):
+            kind, sh = out.frame()
+            ok = out.fold_ok and ((kind == "naive" and dict(sh) == {"LOCAL": 1}) or (kind == "aware" and not sh))
+            ctx.ob(rid, f"{f.short}/frame", ok, loc(f),
+                   f"bundled file stores report {out.describe()}" if ok else
+                   f"bundled file stores report a modified time that is {out.describe()}: the stale check reads naive values as local time "
+                   f"(fold honoured), so this value denotes another instant than the file's mtime")
+        else:
+            ctx.ob(rid, f"{f.short}/frame", False, loc(f), f"get_modified_time of an existing path evaluates to {out!r}")
+    for f in m.funcs.values():
+        if not f.module.name.startswith("uberjob.stores"):
+            continue
+        for c in f.own_calls():
+            for n in ext_names(m, f, c):
+                last = n.split(".")[-1]
+                if n.startswith("datetime.") and last in ("utcfromtimestamp", "utcnow"):
+                    n_ctor += 1
+                    ctx.ob(rid, f"{f.short}/{last}", False, loc(f, c),
+                           f"{last} yields naive UTC, which the stale check reads as local time", norm(c))
+    ctx.floor(rid, "modified-time constructions in bundled stores", n_ctor, 1)
+
+
 def check(ctx):
     m = ctx.model
     ctx.rule("C18.Z1", "every datetime reaching a staleness comparison (fresh_time, every get_modified_time result) passes through the normaliser first; no other datetime is synthesised in the stale check")
@@ -277,37 +312,7 @@ def check(ctx):
                 ctx.ob("C18.Z1", f"{f.short}/synthesised-datetime", False, loc(f, c),
                        f"a datetime is synthesised inside the stale check ({sorted(synth)[0]})", norm(c))
     ctx.floor("C18.Z1", "modified-time query sites", n_mt, 1)
-    # ---------------------------------------------------------------- Z3
-    n_ctor = 0
-    fs_mod = [mod for mod in m.modules.values() if mod.name == "uberjob.stores._file_store"]
-    helpers = [f for f in m.find_funcs("get_modified_time") if f.cls is None and f.module.name.startswith("uberjob.stores")]
-    for f in helpers:
-        n_ctor += 1
-        interp = Interp(m, ext=DT_EXT)
-        try:
-            out = interp.call_func(f, None, ["/some/path"], {})
-        except AbsRaise as e:
-            raise AnalysisError(f"C18.Z3: evaluating {f.qualname} raised {e.value!r}")
-        if isinstance(out, ADT):
-            kind, sh = out.frame()
-            ok = out.fold_ok and ((kind == "naive" and dict(sh) == {"LOCAL": 1}) or (kind == "aware" and not sh))
-            ctx.ob("C18.Z3", f"{f.short}/frame", ok, loc(f),
-                   f"bundled file stores report {out.describe()}" if ok else
-                   f"bundled file stores report a modified time that is {out.describe()}: the stale check reads naive values as local time "
-                   f"(fold honoured), so this value denotes another instant than the file's mtime")
-        else:
-            ctx.ob("C18.Z3", f"{f.short}/frame", False, loc(f), f"get_modified_time of an existing path evaluates to {out!r}")
-    for f in m.funcs.values():
-        if not f.module.name.startswith("uberjob.stores"):
-            continue
-        for c in f.own_calls():
-            for n in ext_names(m, f, c):
-                last = n.split(".")[-1]
-                if n.startswith("datetime.") and last in ("utcfromtimestamp", "utcnow"):
-                    n_ctor += 1
-                    ctx.ob("C18.Z3", f"{f.short}/{last}", False, loc(f, c),
-                           f"{last} yields naive UTC, which the stale check reads as local time", norm(c))
-    ctx.floor("C18.Z3", "modified-time constructions in bundled stores", n_ctor, 1)
+    rule_store_time_frames(ctx, "C18.Z3")
     # user-supplied datetimes pass through unchanged
     for cname in ("LiteralSource", "ModifiedTimeSource"):
         cls = m.one_class(cname, "Z3")
